@@ -371,7 +371,7 @@ def finalize(prop: str, tier: str, seed: int, results: list[dict], *, rule: str,
     evidence = dict(property_id=prop, tier=tier, seed=int(seed), level="exploration", coverage=cov,
                     assumptions=assumptions, wall_s=round(time.time() - t0, 2), violations=len(violations))
     ev_dir = env.out_root() / "evidence"
-    ev_dir.mkdir(exist_ok=True)
+    ev_dir.mkdir(parents=True, exist_ok=True)
     (ev_dir / f"{prop}.json").write_text(json.dumps(evidence, indent=1, sort_keys=False) + "\n")
 
     for ln in lines:
